@@ -270,7 +270,7 @@ Lemma auth_front_ok se ser0 x ue h pt s3 :
    \/ (nlen A <= ue /\ nnth ser1 ue = Some 58 /\ ue + 2 <= nlen ser1 /\ nnth ser1 (nlen ser1 - 1) = Some 64)
    \/ (nlen A <= ue /\ nnth ser1 ue = Some 64 /\ nlen ser1 = ue + 1)) ->
   match pt with Some p => p <= 65535 | None => True end ->
-  ((h = HDomain [] /\ hd h = [] /\ pt = None) \/ host_disp_ok (hd h)) ->
+  ((h = HDomain [] /\ hd h = [] /\ pt = None) \/ host_text_wf (hd h)) ->
   let ser2 := ser1 ++ hd h ++ ptext pt in
   agree_pre (nlen ser2) ser2 s3 -> nlen ser2 <= nlen s3 ->
   (nlen s3 = nlen ser2 \/ nnth s3 (nlen ser2) = Some 47) ->
